@@ -4,6 +4,7 @@
 From Coq Require Import List ZArith Bool.
 Import ListNotations.
 From V Require Import Model.SyncListConc Proofs.SyncListConc Proofs.SyncListTop.
+From V Require Lib.Enc Run.C11 Proofs.SyncListJudgeBase Proofs.SyncListJudgeLive Proofs.SyncListJudgeTop.
 Local Open Scope Z_scope.
 
 Theorem c11_init_invariant : forall n, Inv (init n).
@@ -67,3 +68,28 @@ Theorem c11_pop_busy_was_overtaken : forall c i h nx, Inv c -> nth_error (ths c)
   head (sh c) <> h -> (h < head (sh c))%nat.
 Proof. exact pop_busy_was_overtaken. Qed.
 Print Assumptions c11_pop_busy_was_overtaken.
+
+(* Termination of the run (round-robin fairness): for programs without the blocking PopWait(-1) and with timed PopWaits
+   of at most 3 further tries ([op_live], Run/C11.v), after ANY schedule prefix the completion tail of the run -- round
+   robin over all threads, 40 * (number of calls) + 40 rounds -- ends with no call in flight: every Push has completed
+   (a spinning pusher fails at most once per node linked by another thread under round robin), every Pop/PopWait/Len has
+   returned.  gos = the run of Run/C11.v with a forward token list (Proofs/SyncListJudgeBase.v: go_gos). *)
+Theorem c11_round_robin_quiescent : forall progs npre sched,
+  Forall (Forall (fun x => V.Run.C11.op_live x = true)) progs ->
+  let '(c, rts', _) := V.Proofs.SyncListJudgeBase.gos (seq_state npre (length progs)) (V.Run.C11.init_rts progs)
+                         (sched ++ V.Run.C11.completion (length progs) progs) in
+  V.Run.C11.quiescent c rts' = true.
+Proof. exact V.Proofs.SyncListJudgeLive.completion_quiescent. Qed.
+Print Assumptions c11_round_robin_quiescent.
+
+(* Refinement of the specification-side history judge (Run/C11.v, sub 2 -- the executable reading of the property text that
+   the check applies to the real implementation's traces): on every well-formed case the judge accepts the run of the
+   proved step model (Run/C11.v, sub 0, incl. the run-level PopWait loops): trace walk (linearisation points, FIFO ghost
+   queue, excuses of failed Pops), per-thread results, final Len and stored values.
+   [wf_case] (Run/C11.v): documented op codes, non-negative schedule entries, and EITHER all programs are [op_live]
+   (quiescence is then the theorem above) OR no call is still in flight when the completion tail of the model's run is
+   over (evaluated on the run; needed for the blocking PopWait(-1), which spins forever when no value arrives). *)
+Theorem c11_judge_accepts_model : forall args, V.Run.C11.wf_case args = true ->
+  V.Run.C11.judge (V.Lib.Enc.put_list args ++ V.Lib.Enc.put_list (V.Run.C11.run_case args)) = [1].
+Proof. exact V.Proofs.SyncListJudgeTop.judge_accepts_model. Qed.
+Print Assumptions c11_judge_accepts_model.
